@@ -846,7 +846,7 @@ def make_gen_srf(gs, gen, model, seed, dim):
 
 # ------------------------------------------------------------------------------------ calls that reuse the stored positions
 STORED_CHANGES = ["none", "anis", "angles", "len_scale", "len_scale-list", "var", "model-object", "model-object-same-values", "gen-seed",
-                  "gen-mode_no", "gen-period", "set_pos", "pos-setter", "mesh-type-same-arrays", "call-elsewhere", "call-seed"]
+                  "gen-mode_no", "gen-period", "set_pos", "pos-setter", "mesh-type-same-arrays", "call-elsewhere", "call-seed", "rejected"]
 
 
 def search_stored_pos(gs, rng, N, viol):
@@ -901,6 +901,40 @@ def search_stored_pos(gs, rng, N, viol):
                         continue
                     st["period"] = [float(p) for p in rng.choice([16.0, 25.0, 31.0], size=dim)]
                     srf.generator.period = st["period"]
+                elif ch == "rejected":
+                    # requests that must be refused (ValueError) and leave the object exactly as it was: an update that combines a valid
+                    # new setting with an invalid one, an invalid model parameter, an unknown sampling strategy
+                    g = srf.generator
+                    before = {a: np.array(getattr(g, a), dtype=float, copy=True) for a in ("period", "mode_no", "seed") if hasattr(g, a)}
+                    tries = []
+                    if gen == "Fourier":
+                        tries.append(("update(period=new, mode_no=odd)", lambda: g.update(period=[float(p) + 7.0 for p in np.atleast_1d(g.period)],
+                                                                                             mode_no=[int(m) + 1 for m in np.atleast_1d(g.mode_no)])))
+                        tries.append(("update(mode_no=odd, seed=new)", lambda: g.update(mode_no=[int(m) + 1 for m in np.atleast_1d(g.mode_no)], seed=12345)))
+                    else:
+                        tries.append(("update(mode_no=new, sampling=unknown)", lambda: g.update(mode_no=int(g.mode_no) + 8, sampling="no-such-strategy")
+                                      if "sampling" in g.update.__code__.co_varnames else (_ for _ in ()).throw(ValueError("n/a"))))
+                    if dim > 1:
+                        tries.append(("model.anis = -1", lambda: setattr(srf.model, "anis", -1.0)))
+                    name, fn = tries[int(rng.randint(len(tries)))]
+                    raised = False
+                    try:
+                        fn()
+                    except (ValueError, TypeError):
+                        raised = True
+                    after = {a: np.array(getattr(g, a), dtype=float, copy=True) for a in before}
+                    if raised and any(before[a].shape != after[a].shape or not np.array_equal(before[a], after[a], equal_nan=True) for a in before):
+                        viol.append({"key": f"rejected-op:{gen}:settings-changed",
+                                     "what": f"{name} was refused but the generator's reported settings changed: "
+                                             f"{ {a: (before[a].tolist(), after[a].tolist()) for a in before} }",
+                                     "case": dict(gen=gen, dim=dim, model=cls, op=name)})
+                        break
+                    if not raised:
+                        # accepted after all (e.g. a generator without that option): take over what the object now reports
+                        for a in ("period", "mode_no", "seed"):
+                            if hasattr(g, a) and a in st:
+                                v = np.array(getattr(g, a)).tolist()
+                                st[a] = v
                 elif ch == "gen-seed":
                     st["seed"] = int(rng.choice([5, 10**9 + 9, 78]))
                     srf.generator.seed = st["seed"]
